@@ -363,7 +363,7 @@ def check_px(pid, tier, seed, t0):
     # client programs of an unusual but legal shape that must compile (real rustc; the corpus entries of cx that belong to
     # this property): component names with digits / acronyms / underscores (C05: a valid query must bind to its column),
     # a query naming a compiled-out archetype in a compiled-out parameter (C16)
-    only = {"C05": ("unusual_names",), "C16": ("cfg_disabled_archetype_named",)}.get(pid)
+    only = {"C05": ("unusual_names", "two_worlds_same_name"), "C16": ("cfg_disabled_archetype_named",)}.get(pid)
     if only:
         import cx
         res = _guarded(agg, cx.run, (), "default", only=only)
